@@ -54,6 +54,7 @@ func c14Identity(c *core.Ctx, s *schema.Schema) (msg string, common int, file st
 	}
 	if h.Err() != "" || cl.Err() != "" {
 		// acceptance is C12's concern; nothing to compare
+		c.Ev.Class("a:skipped_plugin_refused_schema", 1)
 		return "", 0, "", nil
 	}
 	hf, cf := h.Files(), cl.Files()
